@@ -623,8 +623,8 @@ func (g *TransferGen) Run(nOps int) {
 		case 1:
 			g.RunForge()
 		case 2:
-			g.RunRoundTrip()
-			g.RunRoundTrip()
+			g.RunRoundTrip(3)
+			g.RunRoundTrip(0)
 		}
 	}
 	for i := 0; i < nOps; i++ {
@@ -789,7 +789,7 @@ func (g *TransferGen) RunForge() {
 
 // RunRoundTrip: send a native token of a random class the NFT module accepts along a random
 // route of 1-3 hops (with the relay chain when the topology has one) and return it hop by hop.
-func (g *TransferGen) RunRoundTrip() {
+func (g *TransferGen) RunRoundTrip(forceHops int) {
 	w := g.w
 	n := len(w.Chains)
 	cur := g.r.Intn(n)
@@ -806,16 +806,21 @@ func (g *TransferGen) RunRoundTrip() {
 		g.nftAfterMint(C, class, id, r)
 	}
 	hops := 1 + g.r.Intn(3)
+	if forceHops > 0 {
+		hops = forceHops
+	}
 	path := []int{cur}
 	local := class
+	visited := map[int]bool{cur: true}
 	for k := 0; k < hops; k++ {
 		next := g.r.Intn(n)
-		for next == cur || (len(path) >= 2 && next == path[len(path)-2]) {
+		for tries := 0; tries < 20 && (next == cur || visited[next]); tries++ {
 			next = g.r.Intn(n)
-			if n == 2 {
-				break
-			}
 		}
+		if visited[next] {
+			break
+		}
+		visited[next] = true
 		if next == cur {
 			break
 		}
